@@ -1,45 +1,6 @@
 (* The hand-written model uses exactly the constants, tables and grammar that tools/source_facts.py read out of
    ctpg.hpp on this run (Model/SourceFacts.v is regenerated every time). A change of the source that alters one of
-   them makes the corresponding lemma fail, which the checks report. *)
-Require Import Ctpg.Base.Prelude Ctpg.Model.Grammar Ctpg.Model.LRGen Ctpg.Model.Driver Ctpg.Model.Dfa
-               Ctpg.Model.RegexFront Ctpg.Model.SourceFacts.
-
-Lemma tie_ws_newline : sf_ws_newline = ws_newline. Proof. reflexivity. Qed.
-Lemma tie_ws_no_newline : sf_ws_no_newline = ws_no_newline. Proof. reflexivity. Qed.
-Lemma tie_sp0 : sf_sp0 = (sp_line sp0, sp_col sp0). Proof. reflexivity. Qed.
-Lemma tie_newline : forall p b, sp_update p [b] = if Nat.eqb b sf_newline then mkSp (S (sp_line p)) 1 else mkSp (sp_line p) (S (sp_col p)).
-Proof. reflexivity. Qed.
-
-Lemma tie_printable : forall c, c < 256 -> is_printable c = (Nat.leb (fst sf_printable) c && Nat.leb c (snd sf_printable)).
-Proof. reflexivity. Qed.
-Lemma tie_dec : forall c, is_dec_digit c = (Nat.leb (fst sf_dec) c && Nat.leb c (snd sf_dec)).
-Proof. reflexivity. Qed.
-Lemma tie_hex : forall c, is_hex_digit c =
-  ((Nat.leb (nth 0 sf_hex 0) c && Nat.leb c (nth 1 sf_hex 0)) || (Nat.leb (nth 2 sf_hex 0) c && Nat.leb c (nth 3 sf_hex 0))
-   || (Nat.leb (nth 4 sf_hex 0) c && Nat.leb c (nth 5 sf_hex 0))).
-Proof. reflexivity. Qed.
-
-Lemma tie_specials : forallb (fun c => match special c, find (fun p => Nat.eqb (fst p) c) sf_specials with
-                                        | Some t, Some (_, t') => Nat.eqb t t'
-                                        | None, None => true
-                                        | _, _ => false
-                                        end) (seq 0 256) = true.
-Proof. vm_compute. reflexivity. Qed.
-
-Lemma tie_rec_slots : forall r t, length r = sf_rec_slots -> add_conflicted r t = r.
-Proof. intros r t H. unfold add_conflicted. rewrite H. reflexivity. Qed.
-
-Lemma tie_kind_order : sf_kind_order = [0; 1; 2; 3; 4; 5]. Proof. reflexivity. Qed.
-
-Lemma tie_char_dfa_size : forall sm c, length (fst (primary_subset sm (cs_single c))) = length sm + sf_char_dfa_size.
-Proof. intros. unfold primary_subset. cbn. rewrite app_length. reflexivity. Qed.
-
-Lemma tie_regex_grammar : sf_regex_raw_grammar = regex_raw_grammar. Proof. reflexivity. Qed.
-
-(* every stream write of the driver is guarded by options.verbose except the two error messages, and the flag is read
-   nowhere else (C16's frame condition on the source) *)
-Lemma tie_unguarded_writes :
-  sf_unguarded_writes = [[115; 121; 110; 116; 97; 120; 95; 101; 114; 114; 111; 114];
-                         [117; 110; 101; 120; 112; 101; 99; 116; 101; 100; 95; 99; 104; 97; 114]].
-Proof. reflexivity. Qed.
-Lemma tie_verbose_reads : sf_verbose_reads_outside_guards = 0. Proof. reflexivity. Qed.
+   them makes the corresponding lemma fail, which the checks report. The lemmas are split by topic so that a check
+   only depends on the facts its property uses. *)
+Require Export Ctpg.Proofs.SourceFactsTieWs Ctpg.Proofs.SourceFactsTiePat Ctpg.Proofs.SourceFactsTieDfa
+               Ctpg.Proofs.SourceFactsTieTab Ctpg.Proofs.SourceFactsTieVerb.
